@@ -616,8 +616,37 @@ def spare_capacity_episodes(g):
         g.count("alias:spare-capacity")
 
 
+def alias_fixed_episodes(g):
+    """deterministic sharing episodes on ordinary bitmaps: both sides of a copy-on-write Clone receive bulk insertions whose FIRST value
+    in a shared chunk is already present (then new ones), point edits, range edits and in-place operations, chunk kind by chunk kind"""
+    conts = {"A": ("A:5,9,300,40000", 5), "R": ("R:100+50,1000+200", 100), "B": ("B:32768:5555555555555555*1024", 0)}
+    for kind, (c, present) in conts.items():
+        for side in ("clone", "source"):
+            ep = A(g)
+            x, y = g.fresh("af"), g.fresh("af")
+            g.emit("mkrepr %s cow=1;5:%s;9:A:1,2,3" % (x, c))
+            ep.define(x, [5, 9])
+            g.emit("clone %s %s" % (y, x))
+            ep.define(y, [5, 9])
+            t = y if side == "clone" else x
+            ep.check()
+            g.emit("addmanyfrom %s %d %d %d" % (t, 5 * CH + present, 6, 3))     # first value present, the following ones new
+            ep.check()
+            g.emit("addmany %s %d %d %d" % (t, 9 * CH + 1, 9 * CH + 70, 9 * CH + 71))
+            ep.check()
+            g.emit("addr %s %d %d" % (t, 5 * CH + 60000, 5 * CH + 60010)); ep.check()
+            g.emit("remr %s %d %d" % (t, 5 * CH + 100, 5 * CH + 130)); ep.check()
+            g.emit("flip %s %d %d" % (t, 9 * CH, 9 * CH + 5)); ep.check()
+            o = x if t == y else y
+            g.emit("ior %s %s" % (t, o)); ep.check()
+            g.emit("add %s %d" % (t, 5 * CH + 7)); g.emit("rem %s %d" % (t, 9 * CH + 2)); ep.check()
+            g.count("alias:fixed-cow-clone-bulk:" + kind)
+            ep.dropall()
+
+
 @suite("alias")
 def _alias(g, scale):
+    alias_fixed_episodes(g)
     spare_capacity_episodes(g)
     grid_binary(g, min(1.0, 0.28 * scale))
     grid_unary(g, min(1.0, 0.5 * scale))
